@@ -470,7 +470,18 @@ class VN:
         a, b = self.ev(e.left, st), self.ev(e.right, st)
         return self.binop(e.op, a, b, e)
 
+    @staticmethod
+    def _str_const(v):
+        a = v.single_atom() if isinstance(v, T.Poly) else None
+        if a is not None and a[0] == "sym" and len(a[1]) >= 2 and a[1][0] == a[1][-1] == "'":
+            return a[1][1:-1]
+        return None
+
     def binop(self, op, a, b, node=None):
+        if isinstance(op, ast.Add):
+            sa, sb = self._str_const(a), self._str_const(b)
+            if sa is not None and sb is not None:
+                return T.sym(repr(sa + sb), real=True)      # concatenation of two known strings
         if isinstance(a, Obj):
             r = a.vn_binop(op, b, False, self, node)
             if r is not None:
@@ -643,6 +654,15 @@ class VN:
                 if repr(nd.key()) < repr(d.key()):
                     d = nd
                 return T.app("zero" if isinstance(op, ast.Eq) else "nonzero", d)
+        if isinstance(op, (ast.In, ast.NotIn)) and isinstance(a, T.Poly) and is_tuple(b) and 0 < len(b) <= 8 and all(isinstance(x, T.Poly) for x in b):
+            # membership in a literal collection is the disjunction of the equalities: `x in (1, 2, 3)` reads like `x == 1 or x == 2 or x == 3`
+            eqs = [self.compare(ast.Eq(), a, x) for x in b]
+            if any(x == TRUE for x in eqs):
+                res = TRUE
+            else:
+                eqs = [x for x in eqs if x != FALSE]
+                res = FALSE if not eqs else (eqs[0] if len(eqs) == 1 else T.app("or", *eqs))
+            return res if isinstance(op, ast.In) else negate(res)
         if isinstance(op, ast.Gt):
             return T.app("lt", b, a)
         if isinstance(op, ast.GtE):
@@ -906,6 +926,23 @@ class VN:
             if r is not None:
                 return r
         f = e.func
+        if isinstance(f, ast.Name) and f.id in ("getattr", "setattr") and not e.keywords and len(e.args) == (2 if f.id == "getattr" else 3):
+            # getattr(obj, "name") / setattr(obj, "name", v) with a name that is a known string is obj.name / obj.name = v
+            nm = self._str_const(self.ev(e.args[1], st))
+            if nm is not None and nm.isidentifier():
+                tgt_ = ast.copy_location(ast.Attribute(value=e.args[0], attr=nm, ctx=ast.Load()), e)
+                if f.id == "getattr":
+                    return self.ev(tgt_, st)
+                tgt_.ctx = ast.Store()
+                val_ = self.ev(e.args[2], st)
+                srck_ = self.key_of(e.args[2]) if isinstance(e.args[2], (ast.Name, ast.Attribute)) else None
+                tk_ = self.key_of(tgt_)
+                if tk_ is not None and srck_ is not None and st.root(srck_) == st.root(tk_):
+                    return NONE      # storing back the very object that was read from there (after updating it in place): nothing changes
+                self.assign(tgt_, val_, st, e)
+                if tk_ is not None:
+                    st.rebind(tk_, srck_ if isinstance(val_, T.Poly) else None)
+                return NONE
         if isinstance(f, ast.Call) and isinstance(f.func, ast.Name) and f.func.id == "getattr" and len(f.args) == 2 and not f.keywords:
             # getattr(mod, "name")(...) with a name that is a known string constant is mod.name(...)
             nv = self.ev(f.args[1], st)
@@ -1032,6 +1069,16 @@ class VN:
             # callee is a value held in a variable (bound comprehension variable, user callable passed in); when that value is itself
             # a plain dotted name (`AH = self.A.H; AH(x)`, `f = np.fft.fftn; f(x)`) the call reads like the direct spelling
             lab = _dotted_of(st.env[k])
+            if lab is not None and self.model is not None and self.func is not None and not lab.startswith("np.") and all(x.isidentifier() for x in lab.split(".")):
+                # `kernel = _soft_thresh if soft else _hard_thresh; kernel(x)`: the variable holds a function of the repository -- the call is a call of that function
+                try:
+                    e2 = ast.copy_location(ast.Call(func=ast.copy_location(ast.parse(lab, mode="eval").body, f), args=e.args, keywords=e.keywords), e)
+                    ast.fix_missing_locations(e2)
+                    tgt2 = self.model.resolve_call(self.func, e2)
+                except Exception:
+                    tgt2 = None
+                if tgt2 is not None and tgt2[0] in ("repo", "class") and self.key_of(e2.func) != k:
+                    return self.ev_Call(e2, st)
             if lab is not None:
                 if lab.startswith("np."):
                     short2 = lab.split(".")[-1]
@@ -1544,9 +1591,10 @@ class VN:
             return tgt[1]
         return None
 
-    def inline_states(self, fn, call, st):
+    def inline_states(self, fn, call, st, keep_raise=False):
         """statement-level inlining of an unknown helper that has several paths and/or updates self.*: the caller's state is forked
-        once per (non-raising) path of the helper; returns [(state, returned value)]"""
+        once per (non-raising) path of the helper; returns [(state, returned value)].  With keep_raise the helper's raising paths are
+        returned too (state.status == "raise"): they are raising paths of the caller."""
         b = self.model.bind(call, fn)
         env = {}
         back = {}
@@ -1564,8 +1612,10 @@ class VN:
                     env.setdefault(k0, v0)
         sub = type(self)(self.model, fn, self.real, self.scalars, self.inline, self.max_depth, self.depth + 1,
                          self.call_hook, self.name_hook if is_self_call else None, self.loop_hook)
-        outs = [o_ for o_ in sub.run(fn.body, State(env, list(st.conds), alias=st.alias if is_self_call else None)) if o_.status != "raise"]
-        if not outs or len(outs) > 16:
+        all_outs = sub.run(fn.body, State(env, list(st.conds), alias=st.alias if is_self_call else None))
+        outs = [o_ for o_ in all_outs if o_.status != "raise"]
+        raising = [o_ for o_ in all_outs if o_.status == "raise"] if keep_raise else []
+        if (not outs and not raising) or len(outs) > 16 or len(raising) > 64:
             raise Unrecognised("inlined helper %s has %d paths" % (fn.qual, len(outs)), call)
         rebound = set()
         for n_ in ast.walk(fn.node):
@@ -1588,6 +1638,11 @@ class VN:
                     if k0.startswith("self.") and (k0 not in st.env or st.env[k0] is not v0):
                         s2.env[k0] = v0
             res.append((s2, o.ret if o.status == "return" and o.ret is not None else NONE))
+        for o in raising:
+            s2 = State(st.env, o.conds, st.events, st.alias)
+            s2.status = "raise"
+            s2.ret = o.ret
+            res.append((s2, None))
         return res
 
     def _undecided_ifexp(self, s, st):
@@ -1630,17 +1685,25 @@ class VN:
                     s2.conds.append(x)
             return self.stmt(s, s1) + self.stmt(s, s2)
         # a call of an unknown helper as a whole statement (or as the whole right-hand side) is read through path by path
-        callnode = s.value if isinstance(s, (ast.Expr, ast.Assign)) and isinstance(getattr(s, "value", None), ast.Call) else None
+        callnode = s.value if isinstance(s, (ast.Expr, ast.Assign, ast.Return)) and isinstance(getattr(s, "value", None), ast.Call) else None
         if callnode is not None:
             fn = self._unknown_helper(callnode)
             if fn is not None:
                 try:
-                    pairs = self.inline_states(fn, callnode, st.fork())
+                    pairs = self.inline_states(fn, callnode, st.fork(), keep_raise=True)
                 except Unrecognised:
                     pairs = None
-                if pairs is not None and (len(pairs) > 1 or any(k.startswith("self.") for p_ in pairs for k in p_[0].env if p_[0].env.get(k) is not st.env.get(k))):
+                if pairs is not None and (len(pairs) > 1 or isinstance(s, ast.Return)
+                                          or any(k.startswith("self.") for p_ in pairs for k in p_[0].env if p_[0].env.get(k) is not st.env.get(k))):
                     outs = []
                     for s2, rv in pairs:
+                        if s2.status == "raise":
+                            outs.append(s2)     # the helper raises on this path: so does the caller
+                            continue
+                        if isinstance(s, ast.Return):
+                            # `return helper(...)`: the function returns on each of the helper's paths what the helper returns there
+                            s2.ret = rv
+                            s2.status = "return"
                         if isinstance(s, ast.Assign):
                             for t in s.targets:
                                 self.assign(t, rv, s2, s)
@@ -1712,6 +1775,55 @@ class VN:
                 if it.optional_vars is not None:
                     self.assign(it.optional_vars, v, st, s)
             return self.block(s.body, [st])
+        if isinstance(s, ast.If) and self.model is not None and self.func is not None:
+            # `if not self._step(x): return` -- a helper with several paths / effects on self called inside the test: the statement is read as
+            # `t = self._step(x); if not t: ...` on each path of the helper
+            hc = None
+            for n_ in ast.walk(s.test):
+                if isinstance(n_, ast.Call) and not isinstance(n_.func, ast.Lambda):
+                    fn_ = self._unknown_helper(n_)
+                    if fn_ is not None:
+                        hc = (n_, fn_)
+                        break
+            if hc is not None:
+                call_, fn_ = hc
+                try:
+                    pairs = self.inline_states(fn_, call_, st.fork(), keep_raise=True)
+                except Unrecognised:
+                    pairs = None
+                if pairs is not None and (len(pairs) > 1 or any(k_.startswith("self.") for p_ in pairs for k_ in p_[0].env if p_[0].env.get(k_) is not st.env.get(k_))):
+                    tmp = "__helper_result_%d__" % (getattr(call_, "lineno", 0) * 1000 + getattr(call_, "col_offset", 0))
+
+                    class _R(ast.NodeTransformer):
+                        def visit_Call(self, node):
+                            if node is call_:
+                                return ast.copy_location(ast.Name(id=tmp, ctx=ast.Load()), node)
+                            return self.generic_visit(node)
+                    import copy as _copy
+                    new_if = ast.copy_location(ast.If(test=_R().visit(_copy.deepcopy(s.test)) if False else None, body=s.body, orelse=s.orelse), s)
+                    # (deepcopy loses node identity: replace by position instead)
+                    t2 = _copy.deepcopy(s.test)
+                    for a_, b_ in zip(ast.walk(s.test), ast.walk(t2)):
+                        if a_ is call_:
+                            target_copy = b_
+                    class _R2(ast.NodeTransformer):
+                        def visit_Call(self, node):
+                            if node is target_copy:
+                                return ast.copy_location(ast.Name(id=tmp, ctx=ast.Load()), node)
+                            return self.generic_visit(node)
+                    new_if.test = _R2().visit(t2)
+                    ast.fix_missing_locations(new_if)
+                    outs_ = []
+                    for s2, rv in pairs:
+                        if s2.status == "raise":
+                            outs_.append(s2)
+                            continue
+                        s2.env[tmp] = rv
+                        res_ = self.stmt(new_if, s2)
+                        for r_ in res_:
+                            r_.env.pop(tmp, None)
+                        outs_.extend(res_)
+                    return outs_
         if isinstance(s, ast.If):
             c = self._as_term(self.ev(s.test, st))
             if isinstance(c, T.Poly) and T.apps(c, "ifexp") and not getattr(st, "_splitting", False):
